@@ -109,7 +109,7 @@ def run(tier: str) -> int:
     tdocs = [("t:pair_late", "Some text here that goes on and on for a while, yes it does. And more {% field %}{% /field %} after and the rest of it is here too.\n\n"
                              "- The first sentence of this list item is fairly ordinary prose text. The second has <!-- f --><!-- /f --> in it and continues a bit more.\n\n"
                              "> A quoted paragraph that is long enough that it has to wrap and then has a {# n #}{# /n #} pair and {{ v }}{{ /v }} too, at the end of it.\n")]
-    for name, text in corpus.RICH + [("q:" + n, t) for n, t in typo.QUOTE_DOCS] + [("e:" + n, t) for n, t in c09.DOT_DOCS] + hdocs + tdocs:
+    for name, text in corpus.RICH + corpus.FINDING_DOCS + [("q:" + n, t) for n, t in typo.QUOTE_DOCS] + [("e:" + n, t) for n, t in c09.DOT_DOCS] + hdocs + tdocs:
         for o in cube:
             jobs.append(("R", name, text, o))
     # family C (C01's): every block snippet inside every container, first in the container and after a leading paragraph
